@@ -133,7 +133,8 @@ class Dm14World:
                 r['t1'] = self.sim.now
                 r['f1'] = len(self.W.bus.frames)
                 results.append(r)
-                engine._vsleep(op.get('gap', gap))
+                if op.get('gap', gap) > 0:
+                    engine._vsleep(op.get('gap', gap))
             done.append(self.sim.now)
         self.sim.spawn(task, name='cliapp')
         t_limit = self.sim.now + sum(op.get('timeout', timeout) + op.get('gap', gap) + 4.0 for op in ops) + until_extra
